@@ -906,7 +906,7 @@ func cmdHistory(args []string) {
 	sum["snapshots"] = len(h.snaps)
 	if len(h.obs) > 0 {
 		o := h.obs[len(h.obs)/2]
-		sum["sample"] = ev.M{"obj": objs[o.obj].ID, "tag": o.tag, "st": o.st[:6], "dg": o.dg[:6], "sel_size": len(o.sel), "cfgSec": o.cfgSec}
+		sum["sample"] = ev.M{"obj": objs[o.obj].ID, "tag": o.tag, "st": o.st[:min(6, len(o.st))], "dg": o.dg[:min(6, len(o.dg))], "sel_size": len(o.sel), "cfgSec": o.cfgSec}
 	}
 	ev.WriteJSON(out("summary.json"), sum)
 }
